@@ -200,4 +200,83 @@ Proof.
     + apply IH. exact HF'.
 Qed.
 
+
+(* sorts *)
+Fixpoint wf_sort (s : sort) : bool :=
+  match s with Sort n args => str_forallb legal_char n && forallb wf_sort args end.
+
+Fixpoint sort_psexp (s : sort) : sexp :=
+  match s with
+  | Sort n args =>
+    match args with
+    | [] => SAtom (name_tok n)
+    | _ => SList (SAtom (name_tok n) :: map sort_psexp args)
+    end
+  end.
+
+Section sort_induction.
+  Variable P : sort -> Prop.
+  Hypothesis H : forall n args, Forall P args -> P (Sort n args).
+  Fixpoint sort_ind2 (s : sort) : P s :=
+    match s with
+    | Sort n args => H n args ((fix go (l : list sort) : Forall P l :=
+                                  match l with [] => Forall_nil P | x :: r => Forall_cons x (sort_ind2 x) (go r) end) args)
+    end.
+End sort_induction.
+
+Lemma flat_map_map : forall (A B C : Type) (f : B -> list C) (g : A -> B) l,
+  flat_map f (map g l) = flat_map (fun x => f (g x)) l.
+Proof. induction l as [|x r IH]; [reflexivity|]. cbn [map flat_map]. rewrite IH. reflexivity. Qed.
+
+Lemma sexp_toks_cons_map : forall (A : Type) (x : sexp) (f : A -> sexp) (l : list A),
+  sexp_toks (SList (x :: map f l)) = TLP :: sexp_toks x ++ flat_map (fun y => sexp_toks (f y)) l ++ [TRP].
+Proof.
+  intros A x f l. cbn [sexp_toks flat_map]. rewrite flat_map_map. rewrite <- app_assoc. reflexivity.
+Qed.
+
+Lemma Forall_forallb_impl : forall (A : Type) (p : A -> bool) (Q : A -> Prop) l,
+  Forall (fun x => p x = true -> Q x) l -> forallb p l = true -> Forall Q l.
+Proof.
+  induction l as [|x r IH]; intros HF Hb; [constructor|].
+  inversion HF; subst. cbn [forallb] in Hb. apply andb_true_iff in Hb as [Hx Hr]. constructor; auto.
+Qed.
+
+Lemma render_sort : forall s, wf_sort s = true -> forall rest l, delim rest -> lexes cfg rest l ->
+  lexes cfg (sortToString repaired s +++ rest) (sexp_toks (sort_psexp s) ++ l).
+Proof.
+  apply (sort_ind2 (fun s => wf_sort s = true -> forall rest l, delim rest -> lexes cfg rest l ->
+                              lexes cfg (sortToString repaired s +++ rest) (sexp_toks (sort_psexp s) ++ l))).
+  intros n args IH Hwf rest l Hd Hr. cbn [wf_sort] in Hwf. apply andb_true_iff in Hwf as [Hn Hargs].
+  cbn [sortToString sort_psexp v_sort_raw repaired].
+  destruct args as [|a r].
+  - cbn [sexp_toks app]. apply render_name; assumption.
+  - rewrite sexp_toks_cons_map. cbn [sexp_toks]. rewrite !append_assoc. cbn [append app]. apply step_lp; [exact Hok|].
+    apply render_name; [exact Hn|apply delim_space|]. cbn [append]. apply step_white; [exact Hspace|].
+    rewrite <- app_assoc. cbn [app].
+    apply (render_join sort (sortToString repaired) (fun x => sexp_toks (sort_psexp x))); [discriminate| |exact Hr].
+    apply (Forall_forallb_impl sort wf_sort); [|exact Hargs].
+    eapply Forall_impl; [|exact IH]. intros x Hx Hw. apply Hx. exact Hw.
+Qed.
+
+Lemma norm_sort_psexp : forall s, norm_sexp (sort_psexp s) = sort_sexp s.
+Proof.
+  apply (sort_ind2 (fun s => norm_sexp (sort_psexp s) = sort_sexp s)).
+  intros n args IH. cbn [sort_psexp sort_sexp]. destruct args as [|a r].
+  - cbn [norm_sexp]. rewrite norm_name_tok. reflexivity.
+  - cbn [norm_sexp map]. rewrite norm_name_tok. unfold sym_tok. f_equal. f_equal.
+    inversion IH; subst. rewrite H1. f_equal. rewrite map_map.
+    apply map_ext_Forall. exact H2.
+Qed.
+
+Lemma atoms_name_tok : forall s, atom_tokenb (name_tok s) = true.
+Proof. intros s. unfold name_tok. destruct (String.eqb _ s); reflexivity. Qed.
+
+Lemma atoms_sort_psexp : forall s, atoms_ok (sort_psexp s) = true.
+Proof.
+  apply (sort_ind2 (fun s => atoms_ok (sort_psexp s) = true)).
+  intros n args IH. cbn [sort_psexp]. destruct args as [|a r]; [apply atoms_name_tok|].
+  cbn [atoms_ok forallb]. rewrite atoms_name_tok. cbn [andb]. rewrite forallb_forall. intros x Hx.
+  apply in_map_iff in Hx as [y [E Hy]]. subst x. rewrite Forall_forall in IH. apply IH. exact Hy.
+Qed.
+
 End Render.
